@@ -668,6 +668,21 @@ def c09_arms(R):
     R.need(n >= 3, f"only {n} constructor arms found in _abstract_internal")
 
 
+def _always_evaluated(x, top):
+    """is the sub-expression x evaluated whenever the test `top` is: it is not behind a short circuit (a later operand
+    of and/or), not an arm of a conditional expression and not inside a comprehension or lambda of the test"""
+    child, parent = x, getattr(x, "_parent", None)
+    while child is not top and parent is not None:
+        if isinstance(parent, ast.BoolOp) and parent.values and parent.values[0] is not child:
+            return False
+        if isinstance(parent, ast.IfExp) and child is not parent.test:
+            return False
+        if isinstance(parent, (ast.Lambda, ast.ListComp, ast.SetComp, ast.GeneratorExp, ast.DictComp, ast.comprehension)):
+            return False
+        child, parent = parent, getattr(parent, "_parent", None)
+    return child is top
+
+
 # ----------------------------------------------------------------------------- C16.checked (pre-existing defect reported by a seeding agent)
 
 
@@ -691,7 +706,7 @@ def c16_checked(R):
     for c in calls:
         facts = guards.guards_of(c)
         ok = any(
-            isinstance(x, ast.Call) and (dotted(x.func) or "") in native
+            isinstance(x, ast.Call) and (dotted(x.func) or "") in native and _always_evaluated(x, t)
             for t, pol in facts
             for x in ast.walk(t)
         )
